@@ -128,6 +128,14 @@ def c10(ctx, H):
         if r['outcome'] == 'hang' or r['seconds'] > 1.5 or \
                 r['loop_exceptions']:
             ctx.violation(sig, f'{rp["site"]}: {r}', replay=rp)
+    elif rp['kind'] == 'reply':
+        from harness.drivers import countloops as CL0
+        (outcome, detail, secs), exc = CL0.reply_replaced(rp['request'],
+                                                          rp['instead'])
+        print(outcome, detail, secs, exc)
+        ctx.count(('replay', 'reply'))
+        if outcome != 'ok' or secs > 1.5 or exc:
+            ctx.violation(sig, f'{outcome} {detail} {exc}', replay=rp)
     elif rp['kind'] == 'keylist':
         from harness.drivers import countloops as CL0
         (outcome, detail, secs), exc = CL0.hostkeys_tail(rp['p'], rp['avail'])
